@@ -237,8 +237,8 @@ def run(chk, tier):
     fw = [hh for hh in d["hir"] if hh["path"].endswith("DataDictionary>::by_tag") and "StandardDataDictionary" in hh["path"]]
     chk.expect(len(fw) == 2 and all(any((c or "").endswith("StandardDataDictionary::indexed_tag") for c, _ in H.calls(hh["body"])) for hh in fw), "lookup-order", "by_tag", "forwards-to-indexed_tag",
                "both impls call indexed_tag", len(fw))
-    fn_ = [hh for hh in d["hir"] if hh["path"].endswith("DataDictionary>::by_name") and "StandardDataDictionary" in hh["path"]]
-    chk.expect(len(fn_) == 2 and all("registry().by_name.get(name)" in H.show(hh["body"], 6) for hh in fn_), "lookup-order", "by_name", "exact-keyword-lookup", "registry().by_name.get(name)", len(fn_))
+    from . import shared
+    shared.keyword_lookup(chk, fx, "keyword-lookup")
     hu = fx.hirfn(f"{DS}::sop_class::StandardUidRegistry::index_all")
     t = H.show(hu["body"], 10)
     ok = "self.by_keyword.extend(" in t and "self.by_uid.extend(" in t and "(e.alias, e)" in t and "(e.uid, e)" in t
